@@ -536,8 +536,8 @@ def dot(a, b, axis=None):
         if len(a.N) < len(b.N):
             raise ShapeMismatch(
                 'Number of the modes of the first tensor must be equal with the second.')
-        # if a.N[axis] != b.N:
-        #     raise Exception('Dimension mismatch.')
+        if len(axis) != len(b.N) or [a.N[i] if 0 <= i < len(a.N) else None for i in axis] != b.N:
+            raise ShapeMismatch('Operands are not the same size.')
 
         k = 0  # index for the tensor b
         cores_new = []
